@@ -604,6 +604,34 @@ pub fn block_on<F: std::future::Future>(fut: F) -> F::Output {
   }
 }
 
+/// Polls `fut` once with a waker that unparks the calling thread.  Ready: Some(output).  Pending: parks
+/// (through the scheduler) until that waker has been invoked and returns None WITHOUT polling again,
+/// so that the caller can drop a future that was woken but not re-polled.
+pub fn poll_then_wait_woken<F: std::future::Future>(fut: std::pin::Pin<&mut F>) -> Option<F::Output> {
+  use std::sync::atomic::{AtomicBool, Ordering};
+  use std::task::{Context, Poll, Wake, Waker};
+  struct W {
+    p: verif::Parker,
+    woken: AtomicBool,
+  }
+  impl Wake for W {
+    fn wake(self: Arc<Self>) {
+      self.woken.store(true, Ordering::SeqCst);
+      self.p.unpark();
+    }
+  }
+  let w = Arc::new(W { p: verif::Parker::current(), woken: AtomicBool::new(false) });
+  let waker = Waker::from(w.clone());
+  let mut cx = Context::from_waker(&waker);
+  if let Poll::Ready(v) = fut.poll(&mut cx) {
+    return Some(v);
+  }
+  while !w.woken.swap(false, Ordering::SeqCst) {
+    verif::Parker::park();
+  }
+  None
+}
+
 /// A pure scheduling point for harness code (e.g. between polling a future and dropping it):
 /// a self-unpark followed by a park that consumes the token, both of which yield to the scheduler.
 pub fn yield_point() {
